@@ -541,6 +541,9 @@ def record_length(repo: Repo, rep, P: str):
         init = [n for n in wfn.body if isinstance(n, ast.Assign) and norm(n.targets[0]) == length_var]
         ok0 = closed_form or (bool(init) and isinstance(init[0].value, ast.Constant) and init[0].value.value == 0)
         payload = packed.find_yield(wfn, b"CHDT")
+        if payload is not None:
+            # record = bytemap[:used]; pack(fmt, *record)   (copies and slices only: the table and the length keep their names)
+            payload = packed.resolve_names(payload, {k: v for k, v in packed.single_defs(wfn).items() if isinstance(v, (ast.Name, ast.Subscript))})
         ptxt = norm(payload) if payload is not None else ""
         uses = payload is not None and any(isinstance(x, ast.Subscript) and isinstance(x.slice, ast.Slice) and x.slice.lower is None
                                            and x.slice.upper is not None and norm(x.slice.upper) == length_var for x in ast.walk(payload))
@@ -788,7 +791,16 @@ def seeding_rule(repo: Repo, rep, P: str):
             if isinstance(c, ast.Call) and norm(c.func) == "setattr" and len(c.args) == 3 and norm(c.args[0]) == "self":
                 from ..packed import resolve_in_block
                 name = norm(resolve_in_block(c.args[1], st.body))
-                val = norm(resolve_in_block(c.args[2], st.body)).replace(" ", "")
+                vexpr = resolve_in_block(c.args[2], st.body)
+                # D[K] if K in D else X   is   D.get(K, X)
+                if isinstance(vexpr, ast.IfExp) and isinstance(vexpr.test, ast.Compare) and len(vexpr.test.ops) == 1:
+                    tt, a_, b_ = vexpr.test, vexpr.body, vexpr.orelse
+                    if isinstance(tt.ops[0], ast.NotIn):
+                        a_, b_ = b_, a_
+                    if isinstance(tt.ops[0], (ast.In, ast.NotIn)) and isinstance(a_, ast.Subscript) and norm(a_.value) == norm(tt.comparators[0]) \
+                            and norm(a_.slice) == norm(tt.left):
+                        vexpr = ast.Call(func=ast.Attribute(value=a_.value, attr="get", ctx=ast.Load()), args=[a_.slice, b_], keywords=[])
+                val = norm(vexpr).replace(" ", "")
                 names_ok = name in (kv, f"{ov}.name")
                 vals = {f"{kwname}.get({k},{ov}.default)" for k in (kv, f"{ov}.name")}
                 if names_ok and val in vals:
